@@ -7,7 +7,8 @@
      present and ANY order of the pending list, the document ends with exactly the obtainable fields and exactly the
      pending fields that are not resolvable -- on or behind a cycle, a failing setter or a missing key, or failing
      themselves -- carry a SETTING_DEFAULT_FAILED error at their own path; two orders give the same result.
-   Assumption A-hash (hash of the pending tuple injective) is built into the model: [seen] holds the lists.
+   [seen] holds the pending lists themselves, as the code does (fact token state:tuple; the former hash of the tuple collided
+   for the field names -1 and -2 and was repaired in be0af7a).
    The values the set fields receive are checked by the graph oracle of the harness, not stated here. *)
 From Coq Require Import List ZArith String Bool.
 From Cerb Require Import Values PyOps Errors Facts SpecFacts FactsOk Pool Validate Worklist Normalize WorklistProofs DefaultsProofs LfpProofs SetterLfp Current.
